@@ -181,3 +181,8 @@ Definition collapsed {P} (pat : pattern) (pts : list P) : Prop :=
 (* specification of to_polyhedron's positions: translate back with argsort, no int32 cast *)
 Definition spec_kernels (tbl : list (string * (bool * (nat * list (list nat))))) :=
   map (fun k => (fst k, (true, snd (snd k)))) tbl.
+
+(* resolve_degeneracy only replaces the 'hex' and 'prism' entries of the element
+   table: every other type block is carried over unchanged *)
+Definition resolve_degeneracy_others (others : list (string * list (Z * list Z)))
+  : list (string * list (Z * list Z)) := others.
